@@ -61,6 +61,15 @@ Next ==
        /\ n + Need(q) <= MaxTok
        /\ toks' = Append(toks, id) /\ p' = q /\ ng' = n
 Spec == Init /\ [][Next]_vars
+(* Biased variant for random walks far beyond the exhaustive bound (TLC -simulate): no scalar
+   at the top level and containers are closed reluctantly, so that a walk is a long, deeply
+   nested text.  Every state of a walk is completed to a valid text by the driver (scalar for
+   a pending value, then the closers that p.stk asks for). *)
+NextSim == /\ Next
+           /\ LET k == KindOf[toks'[Len(toks')]] IN
+              /\ p.stk = <<>> => ~IsScalar(k)
+              /\ k \in {"}", "]"} => (ng' % 4 = 0 \/ ng' + Need(p') + 3 > MaxTok)
+SpecSim == Init /\ [][NextSim]_vars
 
 Complete == p.ph = "done"
 \* ---- invariants (design-level sanity of JsonDoc) ----
